@@ -19,8 +19,10 @@ A *case* (JSON-able dict) describes one connection:
     proxy     None | True                  client only: the factory is configured with an explicit HTTP proxy; the
               harness plays the proxy first (actions px / px_a / px_b / px_deny answer the CONNECT), then the server
     onopen    None | 'close'               the application calls sendClose() from inside onOpen
-    lost_delay  None | seconds             how long a loseConnection()-style close request stays
-              undelivered (unflushed write buffer); abortConnection() is always delivered at once
+    lost_delay  None | seconds | "never"   how long a loseConnection()/close()-style close request stays
+              undelivered because the write buffer cannot be flushed ("never": the peer has stopped reading,
+              the transport only goes away when the harness tears it down at the horizon);
+              abortConnection()/abort() is always delivered at once
     horizon   t_rel at which the main phase ends (past every deadline the case can create)
 
 The monitor keeps a *deadline book* that is derived only from the configuration and from what
@@ -37,6 +39,9 @@ All library timers floor to whole seconds (txaio batched timer: ``int(now + dela
 fire in (D - 1, D].  Verdict rules (one-sided, as in the property statement):
 
     * live deadline D passed and the transport was not asked to close          -> violation
+    * the judgement is about the transport being GONE (connection-lost delivered), not about the request:
+      a timer that closes the transport gracefully while the write buffer cannot be flushed leaves the
+      connection up; connection-lost later than D for the timer that fired         -> violation
     * transport closed by a timer step at t_d: some live deadline must have
       t_d in (D - 1, D]; the close must be reported onClose(False, 1006, reason naming
       that timer)                                                              -> else violation
@@ -369,6 +374,14 @@ class Sim:
         if kind == "lost":                     # delayed delivery of our own close request
             self.deliver_lost()
             return
+        if kind == "api_send":
+            # the application queues data (it is what sits in the write buffer when the peer stops reading)
+            if not self.lost and self.phase == "open" and self.dropped_at is None:
+                for _ in range(6):       # small messages: maxMessagePayloadSize (64 in some cases) also limits what we may send
+                    self.proto.sendMessage(b"queued-data-" * 4, isBinary=True)
+                if W.fw == "aio":
+                    W.settle()
+            return
         if kind == "api_close":
             if not self.lost and self.phase == "open" and self.dropped_at is None:
                 self.close_cause = self.close_cause or "api"
@@ -690,8 +703,10 @@ class Sim:
             self.log("drop", self.drop_how, cause)
             delay = self.case.get("lost_delay")
             if delay and self.drop_how == "lose":
+                # graceful close with an unflushed write buffer: the transport stays up for `delay` (or for good)
                 self.snap_closed = self.snapshot()
-                self.push(now + delay, "lost", False)
+                if delay != "never":
+                    self.push(now + delay, "lost", False)
             else:
                 self.deliver_lost()
         # 6. overdue deadlines
@@ -791,6 +806,19 @@ class Sim:
             return
         self.timer_drop_kind = rk
         R.count("timer_drops_evaluated")
+        if self.case.get("lost_delay"):
+            # the write buffer could not be flushed when the timer fired: only an abortive close ends the connection in time
+            R.count("timer_drops_unflushable_buffer")
+            R.seen("unflushable_timer_kinds", "%s/%s/%s" % (self.role, rk, self.drop_how))
+            self.fired.add("unflushable-buffer")
+            for k in ([rk] if rk in cands else cands):      # the timer that is blamed, else every timer that was due
+                dl = live[k]
+                if not dl.grey and self.lost_at > dl.D + EPS:
+                    self.viol("transport-not-gone-by-deadline/%s" % k,
+                              "the %s timer fired at %s (D=%s) but closed the transport gracefully (%s) while the write buffer could "
+                              "not be flushed (peer not reading): connection-lost / onClose only at %s" % (
+                                  k, self.rel(t_d), self.rel(dl.D), "loseConnection()/close()", self.rel(self.lost_at)),
+                              lost_delay=self.case.get("lost_delay"))
         if rk in cands:
             self.fired.add("deadline-" + rk)
             self.count_deadline(rk)
